@@ -1,6 +1,6 @@
 (** C02 — correspondence cases.  One case = one generated history of store
     operations, replayed by the harness against the real mavl store under every
-    sub-option combination [mavl.New] admits and under "direct Set" versus
+    sub-option combination [mavl.New] accepts and under "direct Set" versus
     "MemSet then Commit", with what every run returned.
 
     History ([uop], 1-based numbering; a parent / target is the number of an
